@@ -437,7 +437,7 @@ func checkAndExtractFieldType(paths []string, typ reflect.Type) (extracted refle
 	}
 
 	extracted = typ
-	for i, field := range paths {
+	for _, field := range paths {
 		if extracted.Kind() == reflect.Map {
 			if extracted.Key() != strType {
 				return nil, false, fmt.Errorf("type[%v] is not a map with string key", extracted)
@@ -465,13 +465,12 @@ func checkAndExtractFieldType(paths []string, typ reflect.Type) (extracted refle
 			continue
 		}
 
-		if i < len(paths)-1 {
-			if extracted.Kind() == reflect.Interface {
-				return extracted, true, nil
-			}
-
-			return nil, false, fmt.Errorf("intermediate type[%v] is not valid", extracted)
+		// there is still a path element to descend into, whatever its position
+		if extracted.Kind() == reflect.Interface {
+			return extracted, true, nil
 		}
+
+		return nil, false, fmt.Errorf("intermediate type[%v] is not valid", extracted)
 	}
 
 	return extracted, false, nil
